@@ -1,1 +1,7 @@
 -- modules of work area Matcher (add imports here)
+import AM.Base.UTF8
+import AM.Model.MatcherPrint
+import AM.Model.MatcherClassic
+import AM.Model.MatcherUTF8
+import AM.Model.MatcherCompat
+import AM.Props.C16
